@@ -47,6 +47,8 @@ def fixed_schemas():
 class TST_P { [Key] string name; uint32 v; string arr[]; };
 class TST_Q : TST_P { string extra = "dflt"; };
 class TST_R : TST_Q { uint16 deep[]; boolean flag = true; };
+class tst_s : TST_R { string level4; };
+class TST_T : TST_S { sint16 level5 = -5; };
 [Association] class TST_L { [Key] TST_P REF parent; [Key] TST_P REF child; uint8 w; };
 class TST_E { [Key] uint32 id = 7; [Key] boolean kb; uint16 d = 3; boolean b; datetime t; real32 r; sint64 big[];
               [EmbeddedInstance("TST_Q")] string ei; [EmbeddedObject] string eo; [EmbeddedInstance("TST_P")] string eia[]; };
@@ -63,7 +65,7 @@ class Mx_Other { [Key] datetime When; [Key] char16 Tag; sint8 delta; };
 
 
 def random_schema(rng, idx):
-    """MOF text of a random schema: 1-2 class trees of depth <= 3, keys and non-keys of all types, 0-2 associations"""
+    """MOF text of a random schema: 1-2 class trees of depth <= 5, keys and non-keys of all types, 0-2 associations"""
     pre = 'G%d_' % idx
     lines = [QUALS]
     roots = []
@@ -94,10 +96,10 @@ def random_schema(rng, idx):
         lines.append('class %s { %s };' % (cname, ' '.join(body)))
         roots.append(cname)
         parents = [cname]
-        for depth in (2, 3):
+        for depth in (2, 3, 4, 5):
             nxt = []
             for p in parents:
-                for k in range(rng.choice([0, 1, 1, 2])):
+                for k in range(rng.choice([0, 1, 1, 2] if depth <= 3 else [0, 0, 1, 1])):
                     sub = '%s_d%d%s%d' % (p, depth, rng.choice(['a', 'B']), k)
                     body = [decl() for _ in range(rng.randint(0, 2))]
                     lines.append('class %s : %s { %s };' % (sub, p, ' '.join(body)))
@@ -327,10 +329,12 @@ def class_info(mof):
                            'ei': p.qualifiers['EmbeddedInstance'].value if 'EmbeddedInstance' in p.qualifiers else None,
                            'eo': 'EmbeddedObject' in p.qualifiers} for p in k.properties.values()]}
         for n, d in info.items():
+            lowmap = {k.lower(): v for k, v in info.items()}
             anc, s = [], d['super']
             while s is not None:
-                anc.append(s)
-                s = info[s]['super']
+                # the superclass attribute keeps the spelling of the subclass declaration: resolve it to the class
+                anc.append(lowmap[s.lower()]['name'])
+                s = lowmap[s.lower()]['super']
             d['ancestors'] = anc
         _CLASSINFO[mof] = info
     return _CLASSINFO[mof]
@@ -1679,9 +1683,9 @@ def make_cases(rng, n, thorough):
 
 def run(run):
     rng = run.rng
-    n = 60000 if run.thorough else 4000
+    n = 30000 if run.thorough else 3000
     run.rule = ('seeded histories of 4..25 instance operations over 2 fixed + 5 (thorough: 12) random schemas (1-3 namespaces, '
-                'class trees of depth <= 3, keys of 10 types, non-keys of all types incl. arrays, associations with '
+                'class trees of depth <= 5, keys of 10 types, non-keys of all types incl. arrays, associations with '
                 'reference keys, optional classes missing in a namespace); arguments: existing / deleted / duplicate / '
                 'recased / reordered / damaged paths, partial instances, PropertyList subsets with undeclared and duplicate '
                 'names, wrong types and arrayness (also on properties whose value is NULL), undeclared properties, NULL / dangling / cross-namespace / host-carrying '
@@ -1757,6 +1761,13 @@ def run(run):
                 run.count('model_vs_spec_disagree')
                 run.disagree(case, 'Spec run differs from Model run (refinement theorem instance fails)', None, 'model vs spec')
         oracle(run, req, outs, case, state)
+    class_lists = {}
+    for res in keep:
+        for nsd in res[2]['nss']:
+            pairs = tuple((''.join(map(chr, c['name'])), None if c['super'] is None else ''.join(map(chr, c['super'])))
+                          for c in nsd['classes'])
+            class_lists[pairs] = True
+    subclass_walk(run, list(class_lists))
     probe_incoherent_schema(run)
 
 
@@ -1798,6 +1809,81 @@ def probe_incoherent_schema(run):
         run.violate({'kind': 'undocumented_exception', 'op': 'modify', 'exc': out['exc'], 'input': 'incoherent_schema'},
                     {'probe': 'incoherent_schema'}, out)
     return out
+
+
+def random_forest(rng, thorough):
+    """a class store given directly as (name, superclass name) pairs: up to 14 classes, chains up to 9 deep, names in
+    mixed case, superclass references recased, some references dangling; no cycles (Python would not terminate)"""
+    n = rng.randint(1, 14 if thorough else 10)
+    names, out = [], []
+    for i in range(n):
+        nm = recase(rng, rng.choice(['Cls', 'x', 'TST_Node', 'a_b']) + str(i))
+        r = rng.random()
+        if names and r < 0.75:
+            # prefer the most recent classes: deep chains
+            sup = recase(rng, names[-1] if rng.random() < 0.5 else rng.choice(names))
+        elif r < 0.82:
+            sup = 'Nowhere%d' % rng.randint(0, 2)
+        else:
+            sup = None
+        names.append(nm)
+        out.append((nm, sup))
+    rng.shuffle(out)
+    return out
+
+
+def subclass_walk(run, class_lists):
+    """K for Model/StoreSubclass.lean: `subclassNames` (exact list) and `inEnumDown` against MainProvider.
+    _get_subclass_names / _get_subclass_list_for_enums of the real code, and against the upward walk `descends`
+    the rest of the model uses (the run-time instance of theorem C10_subclass_walk_down_is_up)"""
+    import pywbem
+    import pywbem_mock
+    from pywbem_mock._inmemoryrepository import InMemoryObjectStore
+    from pywbem._vendor.nocaselist import NocaseList
+    mp = pywbem_mock.FakedWBEMConnection()._mainprovider
+    rng = run.rng
+    stores = [list(cl) for cl in class_lists]
+    stores += [random_forest(rng, run.thorough) for _ in range(3000 if run.thorough else 400)]
+    reqs, reals = [], []
+    for pairs in stores:
+        st = InMemoryObjectStore(pywbem.CIMClass)
+        for nm, sup in pairs:
+            st.create(nm, pywbem.CIMClass(nm, superclass=sup))
+        order = [(c.classname, c.superclass) for c in st.iter_values(copy=False)]
+        targets = [nm for nm, _ in order] + [recase(rng, nm) for nm, _ in order[:3]] + ['NoSuchClass']
+        real = []
+        for t in targets:
+            subs = mp._get_subclass_names(t, st, True)
+            if st.object_exists(t):
+                lst = mp._get_subclass_list_for_enums(t, 'ns', st)
+            else:
+                lst = NocaseList(subs + [t])
+            real.append({'subs': [common.cps(x) for x in subs], 'sel': [nm in lst for nm, _ in order]})
+        reqs.append({'subclasses': {'classes': [{'name': common.cps(nm), 'super': None if sup is None else common.cps(sup),
+                                                 'assoc': False, 'props': []} for nm, sup in order],
+                                    'targets': [common.cps(t) for t in targets]}})
+        reals.append((order, targets, real))
+    answers = common.run_driver(PROP, reqs) if reqs else []
+    for (order, targets, real), ans in zip(reals, answers):
+        run.count('subclass_walk:stores')
+        case = {'subclass_store': order}
+        if 'subs' not in ans:
+            run.disagree(case, ans, None, 'subclass walk: driver rejected the request')
+            continue
+        for k_, t in enumerate(targets):
+            run.count('subclass_walk:targets')
+            if real[k_]['subs']:
+                run.count('subclass_walk:targets_with_subclasses')
+            if len(real[k_]['subs']) > 1 + sum(1 for _, sup in order if sup and sup.lower() == t.lower()):
+                run.count('subclass_walk:targets_with_indirect_subclasses')
+            m = {'subs': ans['subs'][k_], 'sel': ans['down'][k_]}
+            if m != real[k_]:
+                run.disagree(dict(case, target=t), m, real[k_], 'subclass list of a class (downward walk, Model/StoreSubclass.lean)')
+                break
+            if ans['up'][k_] != ans['down'][k_]:
+                run.disagree(dict(case, target=t), {'up': ans['up'][k_]}, {'down': ans['down'][k_]},
+                             'upward and downward subclass walk of the model differ (instance of C10_subclass_walk_down_is_up fails)')
+                break
 
 
 def search(run):
